@@ -34,7 +34,7 @@ SPEC = dict(
           "event + distinct (failed step kind, position) pairs"),
     assumptions=["R7 (function expected() below) encodes the statement's pipeline; read-only VCS queries are ignored",
                  "hg is only observed up to the argv/log-file boundary (no hg binary here)"],
-    required=["failed_add_of_a_file_whose_name_reads_like_a_vcs_message", "runs", "noisy_hook_runs", "dirty_pattern_file_with_allow_dirty", "runs_with_mutating_trace", "fault_runs", "hook_env_checked", "contradictions_rejected",
+    required=["hooks_killed_by_a_signal", "failed_add_of_a_file_whose_name_reads_like_a_vcs_message", "runs", "noisy_hook_runs", "dirty_pattern_file_with_allow_dirty", "runs_with_mutating_trace", "fault_runs", "hook_env_checked", "contradictions_rejected",
               "dry_runs", "no_fetch_runs", "vcs:git", "vcs:hg", "failed_step:commit", "failed_step:tag",
               "failed_step:pre-hook", "order_by_checksum_checked"],
     anchors=[("cli", "_parse_vcs_options"), ("cli", "_update"), ("vcs", "commit"), ("hooks", "run"),
@@ -86,6 +86,17 @@ def cases(ctx):
     for k, f in enumerate(bases):
         if ctx.mine(k):
             yield {"kind": "faults", "f": f}
+    # a hook that fails by being KILLED (out of memory, a CI timeout): a failure like any other
+    k = 0
+    for which in ("pre", "post"):
+        for vcs in (0, 1):
+            for push in (1, 2):
+                f = decode(0)
+                f.update(cfg_commit=1, cfg_tag=1, cfg_push=push, remote=1, tagmsg=1, fetch=0, vcs=vcs, pre=1, post=1, hook_killed=1)
+                f[which] = 2
+                if ctx.mine(k):
+                    yield {"kind": "killed-hook", "f": f}
+                k += 1
     # hooks that succeed but are talkative: the pipeline has to get past them (bounded progress; a run that does not
     # finish is examined for a wait-for cycle between bumpver and the hook instead of being judged by the clock)
     k = 0
@@ -228,7 +239,9 @@ def setup_fake(d, f, vcs):
         fails.append("hook-pre")
     if f["post"] == 2:
         fails.append("hook-post")
-    if fails:
+    if fails and f.get("hook_killed"):
+        fake.kill_match(fails)      # the failing hook dies from a signal instead of exiting with a status
+    elif fails:
         fake.fail_match(fails)
     if vcs == "git":
         fake.set_out("status", f" M {extras(f)['dirty_file']}\n" if f["dirty"] else "")
@@ -410,8 +423,11 @@ def run_noisy_hook(ctx, case):
 def run_case(ctx, case):
     if case["kind"] == "noisy-hook":
         return run_noisy_hook(ctx, case)
-    if case["kind"] == "cfg":
-        f = decode(case["idx"])
+    if case["kind"] in ("cfg", "killed-hook"):
+        f = decode(case["idx"]) if case["kind"] == "cfg" else case["f"]
+        if case["kind"] == "killed-hook":
+            ctx.count("hooks_killed_by_a_signal")
+            case = dict(case, idx=encode(f))
         res, evs, exp, problems, args = run_once(ctx, f)
         ctx.count("runs")
         ctx.count("vcs:" + ("hg" if f["vcs"] else "git"))
